@@ -34,6 +34,9 @@ func (w *World) newExec(pk *Pkg, fn *ssa.Function, fc *FuncContract) *Exec {
 		typeIDs: map[string]int{}, typeByID: map[int]types.Type{}, counters: map[string]int{}, params: map[string]SVal{},
 		tparams: tparamMap(fn), trusted: map[string]bool{}, inlined: map[string]bool{}, globals: map[string]Val{},
 		strConst: map[string]StrVal{}, regexUse: map[string]bool{}, callees: map[string]bool{}}
+	if fc != nil {
+		x.rootOpts = fc.Opts
+	}
 	return x
 }
 
